@@ -611,6 +611,8 @@ def ctx_stream(tier, seed, *, scale=1.0, with_wide=True, max_rnd=None, with_huge
         yield from struct(seed, [2, 3, 4, 5, 6])
         yield from via_variants(seed, int(240 * scale))
         yield from crc_twins(seed, int(16 * scale))
+        if with_wide:
+            yield from hash_twins(seed, int(8 * scale))
         yield from subclassed(seed, int(60 * scale))
         yield from tall(seed, int(60 * scale))
         if with_wide:
@@ -636,6 +638,8 @@ def ctx_stream(tier, seed, *, scale=1.0, with_wide=True, max_rnd=None, with_huge
         yield from near(structs[::3], seed, per=int(3 * scale) or 1)
         yield from via_variants(seed, int(4800 * scale))
         yield from crc_twins(seed, int(240 * scale))
+        if with_wide:
+            yield from hash_twins(seed, int(60 * scale))
         yield from subclassed(seed, int(1200 * scale))
         yield from tall(seed, int(2000 * scale))
         if with_wide:
@@ -741,6 +745,26 @@ def crc_twins(seed, count, tag='CRCTWIN'):
         if twin is None:
             continue
         made += 1
+        yield {'fam': tag, 'objects': o, 'properties': p, 'rows': rows, 'twin_rows': twin}
+
+
+def hash_twins(seed, count, tag='HASHTWIN'):
+    """Pairs of different tables over the same labels whose rows, read as integers, are pairwise congruent
+    modulo 2**61 - 1 (CPython's hash modulus): bits k and k + 61 of every row exchanged for a few k, so
+    ``hash()`` of the row ints, of tuples and of frozensets of them agree although the tables differ."""
+    rng = random.Random(f'{seed}/{tag}')
+    for k in range(count):
+        n, m = rng.randint(3, 9), rng.choice([63, 66, 70, 75, 124, 130])
+        rows = rnd_rows(rng, n, m, rng.choice([.3, .5]))
+        twin = list(rows)
+        for j in rng.sample(range(m - 61), rng.randint(1, min(4, m - 61))):
+            for i, r in enumerate(twin):
+                lo, hi = r >> j & 1, r >> (j + 61) & 1
+                if lo != hi:
+                    twin[i] = r ^ (1 << j) ^ (1 << (j + 61))
+        if twin == rows:
+            continue
+        o, p = labels(n, m, ['plain', 'rev', 'shuffled'][k % 3], rng)
         yield {'fam': tag, 'objects': o, 'properties': p, 'rows': rows, 'twin_rows': twin}
 
 
